@@ -20,8 +20,8 @@ The real `Tick` is `runPipeline ; sendToCP ; processInput ; doFlush`. `runPipeli
 scheduler, skipped while `isPaused`) is represented by the events `issS / issV / fetch / usendS /
 usendV` that precede a `tick`; `tick` is the rest.
 
-Ghost fields (`issued`, `applied`, `sent`, `flushed`, `resent`, `ackLog`, `flushes`, `acksLost`,
-`cp`) are never read by a transition.
+Ghost fields (`issued`, `applied`, `sent`, `flushed`, `resent`, `ackLog`, `flushes`, `restarts`,
+`acksLost`, `cp`) are never read by a transition.
 -/
 namespace C14.Flush
 open Util
@@ -177,6 +177,8 @@ structure St where
   nextId : Nat
   /-- ghost: flush requests executed by `flushPipeline` -/
   flushes : Nat
+  /-- ghost: restart requests handled by `handlePipelineResume` -/
+  restarts : Nat
   /-- ghost: acknowledgements overwritten in `toSendToCP` before they were sent -/
   acksLost : Nat
   /-- ghost: everything ever put on `ToCP` -/
@@ -189,7 +191,7 @@ def St.init : St :=
   { f := Chan.empty, s := Chan.empty, v := Chan.empty, vm := fun _ => 0, lgkm := fun _ => 0,
     isFlushing := false, isPaused := false, isSending := false, flushReq := false,
     handlingWfc := false, ackPending := false, cpOut := [], cpIn := [], fault := false, nextId := 0,
-    flushes := 0, acksLost := 0, ackLog := [], cp := .idle }
+    flushes := 0, restarts := 0, acksLost := 0, ackLog := [], cp := .idle }
 
 def upd (g : Nat → Int) (w : Nat) (d : Int) : Nat → Int := fun x => if x = w then g x + d else g x
 
@@ -283,8 +285,9 @@ def procCP (c : Cfg) (s : St) : St :=
   | .flush :: rest => { s with cpIn := rest, isFlushing := true, flushReq := true }
   | .restart :: rest =>
     if s.cpOut.length < c.capCP then
-      { s with cpIn := rest, isSending := true, cpOut := s.cpOut ++ [.rrsp], ackLog := s.ackLog ++ [.rrsp] }
-    else { s with cpIn := rest, isSending := true, fault := true }
+      { s with cpIn := rest, isSending := true, cpOut := s.cpOut ++ [.rrsp], ackLog := s.ackLog ++ [.rrsp],
+               restarts := s.restarts + 1 }
+    else { s with cpIn := rest, isSending := true, fault := true, restarts := s.restarts + 1 }
 
 /-- `processInput` -/
 def processInput (c : Cfg) (s : St) : St :=
